@@ -185,7 +185,7 @@ def apply_random_op(node, rng, res):
     if op == "subs_int_tensor" and ints:
         k = str(rng.choice(ints))
         size = inputs[k][0]
-        other = "q"
+        other = next(n for n in ("q", "q2", "q3", "q4", "q5") if n not in inputs)   # a fresh name: an earlier step may have left (and grown) a `q`
         table = rng.integers(0, size, size=(3,))
         new_inputs = OrderedDict((n, d) for n, d in inputs.items() if n != k)
         new_inputs[other] = (3, ())
